@@ -5,7 +5,7 @@ use std::{
     net::{IpAddr, SocketAddr},
     sync::{
         mpsc::{channel, Receiver},
-        Arc, RwLock,
+        Arc, Mutex, RwLock,
     },
     time::Duration,
 };
@@ -116,6 +116,9 @@ fn process_audio_assets(
     }
 }
 
+/// threads answering http requests
+const RESPONDERS: usize = 16;
+
 type MeshCache = Arc<RwLock<HashMap<Uuid, Vec<u8>>>>;
 type ImageCache = Arc<RwLock<HashMap<Uuid, Vec<u8>>>>;
 type AudioCache = Arc<RwLock<HashMap<Uuid, Vec<u8>>>>;
@@ -187,12 +190,18 @@ impl SyncAssetTransfer {
                 server_tx.send(request).unwrap_or(());
             }
         });
-        let meshes = result.meshes.clone();
-        let images = result.images.clone();
-        let audios = result.audios.clone();
-        result
-            .server_pool
-            .execute(move || Self::respond(server_rx, meshes, images, audios, max_transfer));
+        // several responders share the queue: a peer that does not read its response keeps one of
+        // them busy, not the whole endpoint
+        let server_rx = Arc::new(Mutex::new(server_rx));
+        for _ in 0..RESPONDERS {
+            let server_rx = server_rx.clone();
+            let meshes = result.meshes.clone();
+            let images = result.images.clone();
+            let audios = result.audios.clone();
+            result
+                .server_pool
+                .execute(move || Self::respond(server_rx, meshes, images, audios, max_transfer));
+        }
         result
     }
 
@@ -370,13 +379,16 @@ impl SyncAssetTransfer {
     }
 
     fn respond(
-        rx: Receiver<Request>,
+        rx: Arc<Mutex<Receiver<Request>>>,
         meshes: MeshCache,
         images: ImageCache,
         audios: AudioCache,
         max_size: usize,
     ) {
-        for request in rx.iter() {
+        loop {
+            let Ok(request) = rx.lock().map_err(|_| ()).and_then(|rx| rx.recv().map_err(|_| ())) else {
+                break;
+            };
             let url = request.url();
             let (asset_type, id) = if url.contains("/image/") {
                 let Some(id) = url.strip_prefix("/image/") else {
@@ -415,16 +427,15 @@ impl SyncAssetTransfer {
                         continue;
                     };
                     debug!("Responding to {} with size {}", url, mesh.len());
-                    request
-                        .respond(
-                            Response::from_data(mesh.clone())
-                                .with_header(Header {
-                                    field: "Content-Length".parse().unwrap(),
-                                    value: AsciiString::from_ascii(mesh.len().to_string()).unwrap(),
-                                })
-                                .with_chunked_threshold(max_size),
-                        )
-                        .unwrap_or(());
+                    let response = Response::from_data(mesh.clone())
+                        .with_header(Header {
+                            field: "Content-Length".parse().unwrap(),
+                            value: AsciiString::from_ascii(mesh.len().to_string()).unwrap(),
+                        })
+                        .with_chunked_threshold(max_size);
+                    // the lock is released before the body is written to the socket
+                    drop(meshesmap);
+                    request.respond(response).unwrap_or(());
                 }
                 SyncAssetType::Image => {
                     let Ok(imagesmap) = images.read() else {
@@ -440,17 +451,16 @@ impl SyncAssetTransfer {
                         continue;
                     };
                     debug!("Responding to {} with size {}", url, image.len());
-                    request
-                        .respond(
-                            Response::from_data(image.clone())
-                                .with_header(Header {
-                                    field: "Content-Length".parse().unwrap(),
-                                    value: AsciiString::from_ascii(image.len().to_string())
-                                        .unwrap(),
-                                })
-                                .with_chunked_threshold(max_size),
-                        )
-                        .unwrap_or(());
+                    let response = Response::from_data(image.clone())
+                        .with_header(Header {
+                            field: "Content-Length".parse().unwrap(),
+                            value: AsciiString::from_ascii(image.len().to_string())
+                                .unwrap(),
+                        })
+                        .with_chunked_threshold(max_size);
+                    // the lock is released before the body is written to the socket
+                    drop(imagesmap);
+                    request.respond(response).unwrap_or(());
                 }
                 SyncAssetType::Audio => {
                     let Ok(audiosmap) = audios.read() else {
@@ -466,17 +476,16 @@ impl SyncAssetTransfer {
                         continue;
                     };
                     debug!("Responding to {} with size {}", url, audio.len());
-                    request
-                        .respond(
-                            Response::from_data(audio.clone())
-                                .with_header(Header {
-                                    field: "Content-Length".parse().unwrap(),
-                                    value: AsciiString::from_ascii(audio.len().to_string())
-                                        .unwrap(),
-                                })
-                                .with_chunked_threshold(max_size),
-                        )
-                        .unwrap_or(());
+                    let response = Response::from_data(audio.clone())
+                        .with_header(Header {
+                            field: "Content-Length".parse().unwrap(),
+                            value: AsciiString::from_ascii(audio.len().to_string())
+                                .unwrap(),
+                        })
+                        .with_chunked_threshold(max_size);
+                    // the lock is released before the body is written to the socket
+                    drop(audiosmap);
+                    request.respond(response).unwrap_or(());
                 }
             }
         }
